@@ -304,7 +304,21 @@ class SymReal:
             if o != o:
                 return op == '!='
             return {'<': pos, '<=': pos, '>': not pos, '>=': not pos, '==': False, '!=': True}[op]
-        return cmp_poly(signpoly(rf_add(self.r, oz, -1)), op)
+        d = rf_add(self.r, oz, -1)
+        if not d.d or _ENG is None:
+            return cmp_poly(signpoly(d), op)
+        # denominator factors whose sign is already fixed by the (linear) path condition need not be
+        # multiplied into the sign polynomial: keeps branch conditions linear (symbolic knots, split maps)
+        p = d.n
+        flip = False
+        for f, k in d.d.items():
+            if k % 2:
+                sg = _ENG.sign_of_factor(f)
+                if sg == 0:
+                    p = p * f
+                elif sg < 0:
+                    flip = not flip
+        return cmp_poly(-p if flip else p, op)
 
     def __lt__(self, o):
         return self._cmp(o, '<')
@@ -586,6 +600,7 @@ class Engine:
         self.solverL.set('timeout', self.branch_timeout_ms)
         self.decided = {}
         self.nz = set()
+        self.fsign = {}
         self.subs = []
         self.rewrites = []
         self.nsq = 0
@@ -747,6 +762,24 @@ class Engine:
         self._add_pc(sb.e, sb.vars, sb.lin)
         if sb.eqpoly is not None and sb.eqpoly[0] == '==':
             self._note_equality(sb.eqpoly[1])
+
+    def sign_of_factor(self, f):
+        """+1 / -1 when the linear PC fixes the sign of the (linear) polynomial f on this path, else 0"""
+        if not f.is_linear():
+            return 0
+        key = f.key()
+        sg = self.fsign.get(key)
+        if sg:
+            return sg
+        z = poly_to_z3(f)
+        sg = 0
+        if self.check_lin(z <= 0) == 'unsat':
+            sg = 1
+        elif self.check_lin(z >= 0) == 'unsat':
+            sg = -1
+        if sg:
+            self.fsign[key] = sg
+        return sg
 
     # division ---------------------------------------------------------------------------------
     def check_div(self, r):
